@@ -183,9 +183,19 @@ func LedgerOf(nd *Node) *Ledger {
 
 // Digest is a canonical string of the element sets (ids, leaf indices and key fields), for
 // equality checks between ledgers.
-func (l *Ledger) Digest(withProofs bool) string {
+func (l *Ledger) Digest(withProofs bool) string { return l.digest(withProofs, true) }
+
+// DigestNoLeaf is Digest without leaf indices and proofs: which elements exist, with which
+// contents (what stays comparable across nodes whose accumulators legitimately differ in leaf
+// order).
+func (l *Ledger) DigestNoLeaf() string { return l.digest(false, false) }
+
+func (l *Ledger) digest(withProofs, withLeaf bool) string {
 	var lines []string
 	pf := func(se types.StateElement) string {
+		if !withLeaf {
+			return ""
+		}
 		if !withProofs {
 			return fmt.Sprint(se.LeafIndex)
 		}
